@@ -54,6 +54,18 @@ def gen(rng, tier):
     c2 = [([x / 16 for x in b], u / 16) for b, u in ex[1]]
     out += mk("f64", 2, 2, 3, c1, c2, [x / 16 for x in ex[2]], [x / 16 for x in ex[3]], [x / 16 for x in ex[4]],
               "property_example", gid)
+    # the same tables in f32 (all numbers are sixteenths): the impossible cell's residue is a few 1e-8 there
+    gid += 1
+    out += mk("f32", 2, 2, 3, c1, c2, [x / 16 for x in ex[2]], [x / 16 for x in ex[3]], [x / 16 for x in ex[4]],
+              "property_example", gid, fams=(("arr", 0),))
+    # a second table pair with an impossible joint value (x0 excludes y1, z1 excludes y2, the rest cancels in the
+    # product) whose cancellation residue is not an exact zero in f32 (about 1e-8, inside the f32 guard)
+    ex2 = ([([6, 0, 10], 0), ([15, 1, 0], 0)], [([4, 4, 8], 0), ([2, 14, 0], 0)], [12, 4], [7, 9], [13, 2, 1])
+    for ty in ("f32", "f64"):
+        gid += 1
+        out += mk(ty, 2, 2, 3, [([x / 16 for x in b], u / 16) for b, u in ex2[0]],
+                  [([x / 16 for x in b], u / 16) for b, u in ex2[1]], [x / 16 for x in ex2[2]], [x / 16 for x in ex2[3]],
+                  [x / 16 for x in ex2[4]], "impossible_cell_residue", gid, fams=(("arr", 0),))
     # rare events: a joint value (x1,z1) that is possible only under a rare y: its likelihoods P(x1z1|y) are small but
     # far above machine epsilon while their base-rate-weighted sum lies below it (exact dyadic tables)
     for ty in ("f64", "f32"):
